@@ -29,7 +29,7 @@ import logging
 logger = logging.getLogger(__name__)
 
 from spyne import MethodContext, BODY_STYLE_BARE, ComplexModelBase, \
-    BODY_STYLE_EMPTY, Ignored
+    BODY_STYLE_EMPTY, Ignored, Fault
 
 from spyne.client import Factory
 from spyne.const.ansi_color import LIGHT_RED
@@ -120,7 +120,18 @@ class _FunctionCall(object):
         initial_ctx.transport.type = NullServer.transport
         initial_ctx.locale = self._locale
 
-        contexts = self.app.in_protocol.generate_method_contexts(initial_ctx)
+        try:
+            contexts = self.app.in_protocol.generate_method_contexts(
+                                                                    initial_ctx)
+        except Fault as e:
+            # e.g. an unknown method name: the context has been announced
+            # already, so it ends the way ServerBase.generate_contexts ends it
+            initial_ctx.out_error = e
+            try:
+                initial_ctx.fire_event('method_exception_object')
+            finally:
+                initial_ctx.close()
+            raise
 
         retval = None
         logger.warning("%s start request %s" % (_big_header, _big_footer))
